@@ -579,7 +579,8 @@ Record trans_k (s s' : st) (k : key) (pre : list (key * N)) (newi : option N) (n
   tk_fo : forall k', k' <> k ->
             (In k' (keys pre) -> alookup k' (files s') = None) /\
             (~ In k' (keys pre) -> alookup k' (files s') = alookup k' (files s));
-  tk_clock : clock s <= clock s' <= clock s + 1
+  tk_clock : clock s <= clock s' <= clock s + 1;
+  tk_new : match newf with Some (_, mt) => mt = clock s + 1 /\ clock s' = clock s + 1 | None => True end
 }.
 
 Definition cons (s s' : st) (newi : option N) (newf : option (N * N)) : Prop :=
@@ -634,7 +635,8 @@ Proof.
     - exists (aremove k (index s)). rewrite app_nil_r; auto.
     - apply alookup_aremove_eq.
     - intros k' Hk. split; [tauto|]. intros _. apply alookup_aremove_neq; auto.
-    - lia. }
+    - lia.
+    - exact I. }
   assert (Hsz : match d with Some d0 => d0 | None => w end = w) by (destruct Hd; subst; auto).
   rewrite Hsz.
   destruct (make_space _ w) as [ok s3] eqn:MS.
@@ -652,6 +654,7 @@ Proof.
       * apply alookup_rmkeys_in; auto.
       * rewrite alookup_rmkeys_notin by auto. apply alookup_ains_neq; auto.
     + lia.
+    + simpl; auto.
   - destruct Hi1 as [(Hm1 & _) _]. destruct (Hfail Hm1 eq_refl) as [-> Hs3].
     simpl in *. intros H; inversion H; subst; clear H. right.
     exists [], None, None. split; [|exact I]. constructor; simpl.
@@ -659,6 +662,7 @@ Proof.
     + apply alookup_aremove_eq.
     + intros k' Hk. split; [tauto|]. intros _. rewrite alookup_aremove_neq by auto. apply alookup_ains_neq; auto.
     + lia.
+    + exact I.
 Qed.
 
 Lemma shape_make_space s n ok s' : make_space s n = (ok, s') -> exists pre, trans_ev s s' pre.
@@ -710,6 +714,7 @@ Proof.
     + apply alookup_rmkeys_in; tauto.
     + apply alookup_rmkeys_notin; tauto.
   - lia.
+  - simpl; auto.
 Qed.
 
 Lemma shape_get s k s' r t : get s k = (s', r, t) ->
@@ -725,6 +730,7 @@ Proof.
       * apply alookup_ains_eq.
       * intros k' Hk. split; [tauto|]. intros _. apply alookup_ains_neq; auto.
       * lia.
+      * simpl; auto.
     + intros Hd. apply Hd in E as [mt' E]. rewrite E in F. inversion F; subst. simpl; auto.
   - exists (Some sz), None. split.
     + constructor; simpl.
@@ -732,6 +738,7 @@ Proof.
       * exact F.
       * intros k' Hk. tauto.
       * lia.
+      * exact I.
     + intros Hd. apply Hd in E as [mt' E]. rewrite E in F. discriminate.
 Qed.
 
@@ -747,10 +754,12 @@ Proof.
   - apply alookup_aremove_eq.
   - intros k' Hk. split; [tauto|]. intros _. apply alookup_aremove_neq; auto.
   - lia.
+  - exact I.
   - exists (aremove k (index s)). rewrite app_nil_r; auto.
   - exact F.
   - intros k' Hk. tauto.
   - lia.
+  - exact I.
 Qed.
 
 Definition op_key (s : st) (o : op) : option key :=
@@ -1300,14 +1309,554 @@ Definition not_extdel (o : op) : Prop := match o with ExternalDelete _ => False 
 
 Lemma step_good s o : good s -> not_extdel o -> good (fst (step s o)).
 Proof.
-  intros Hg Hn. destruct o; try (exfalso; exact Hn);
-    try (destruct Hg as (Hi & Hk & Hd); split; [apply step_inv; auto|];
-         split; [apply ks_step; auto | apply step_disk_ok; simpl; auto]).
-  simpl. apply reopen_good, good_dir_ok, Hg.
+  intros Hg Hn.
+  assert (Hp : plain_op o \/ exists c, o = Reopen c).
+  { destruct o; simpl in *; eauto; tauto. }
+  destruct Hp as [Hp|[c ->]].
+  - destruct Hg as (Hi & Hk & Hd). split; [apply step_inv; auto|].
+    split; [apply ks_step; auto | apply step_disk_ok; auto].
+  - simpl. apply reopen_good, good_dir_ok, Hg.
 Qed.
 
 Lemma run_good ops : forall s, good s -> Forall not_extdel ops -> good (run s ops).
 Proof.
   unfold run. induction ops as [|o r IH]; simpl; auto. intros s Hg Hf. inversion Hf; subst.
   apply IH; auto. apply step_good; auto.
+Qed.
+
+(* ====================================================================== *)
+(* G. recency survives a restart                                           *)
+(* ====================================================================== *)
+
+Lemma make_space_noop s n : measure s + (pending_size s + n) <= cap s -> make_space s n = (true, s).
+Proof.
+  intros H. unfold make_space.
+  destruct (n <=? cap s) eqn:E1; [|lia]. destruct (pending_size s + n <=? cap s) eqn:E2; [|lia]. simpl.
+  rewrite evict_noop by auto. destruct s; reflexivity.
+Qed.
+
+Lemma fold_init_noevict : forall L s,
+  inv s -> pending_size s = 0 ->
+  measure s + sumsz (map proj L) <= cap s ->
+  (forall e, In e L -> is_temp (fst e) = false) ->
+  NoDup (keys (index s) ++ keys L) ->
+  index (fold_left init_add L s) = index s ++ map proj L.
+Proof.
+  induction L as [|[k [sz mt]] L IH]; intros s Hi Hp Hm Ht Hnd.
+  - simpl. rewrite app_nil_r; auto.
+  - change (fold_left init_add ((k, (sz, mt)) :: L) s) with (fold_left init_add L (init_add s (k, (sz, mt)))).
+    change (map proj ((k, (sz, mt)) :: L)) with ((k, sz) :: map proj L) in *. simpl in Hm.
+    assert (Ei : init_add s (k, (sz, mt)) = lru_insert s k sz).
+    { unfold init_add. pose proof (Ht (k, (sz, mt)) (or_introl eq_refl)) as Et. simpl in Et. rewrite Et.
+      destruct (sz <=? cap s) eqn:E; [|lia]. simpl. rewrite make_space_noop by lia. reflexivity. }
+    rewrite Ei.
+    assert (Hb : measure s + (pending_size s + sz) <= cap s) by lia.
+    pose proof (inv_lru_insert s k sz Hi Hb) as Hi2.
+    assert (Hnk : alookup k (index s) = None).
+    { apply alookup_None. intros Hin. simpl in Hnd. apply NoDup_remove_2 in Hnd. apply Hnd.
+      rewrite in_app_iff; auto. }
+    rewrite lru_insert_inv_eq in * by auto. rewrite aremove_notin in * by auto.
+    rewrite IH; auto; simpl.
+    + rewrite <- app_assoc. reflexivity.
+    + destruct Hi as [(Hmm & _) _]. lia.
+    + intros e He. apply Ht; right; auto.
+    + rewrite keys_app. simpl. rewrite <- app_assoc. exact Hnd.
+Qed.
+
+Lemma ssorted_NoDup l : ssorted l -> NoDup l.
+Proof.
+  induction l as [|x r IH]; simpl; [constructor|]. intros [H1 H2]. constructor; auto.
+  intros Hin. rewrite Forall_forall in H1. apply H1 in Hin. lia.
+Qed.
+
+Lemma sorted_perm_eq : forall A B : list (key * (N * N)),
+  ssorted (map emt A) -> ssorted (map emt B) -> Permutation A B -> A = B.
+Proof.
+  induction A as [|a A IH]; intros B HA HB P.
+  - apply Permutation_nil in P; auto.
+  - destruct B as [|b B]. { apply Permutation_sym, Permutation_nil in P; discriminate. }
+    assert (a = b).
+    { destruct (Permutation_in a P (or_introl eq_refl)) as [E|Hin]; auto.
+      destruct (Permutation_in b (Permutation_sym P) (or_introl eq_refl)) as [E|Hin2]; auto.
+      simpl in HA, HB. destruct HA as [HA _], HB as [HB _]. rewrite Forall_forall in HA, HB.
+      pose proof (HA _ (in_map emt _ _ Hin2)). pose proof (HB _ (in_map emt _ _ Hin)). lia. }
+    subst. f_equal. apply IH; [apply HA | apply HB | eapply Permutation_cons_inv; eauto].
+Qed.
+
+(* insertion sort of a permutation of a strictly sorted list returns that list *)
+Lemma sort_mtime_of_perm l F : Permutation l F -> ssorted (map emt F) -> sort_mtime l = F.
+Proof.
+  intros P HF. apply sorted_perm_eq; auto.
+  - apply sort_mtime_ssorted. eapply Permutation_NoDup; [apply Permutation_map, Permutation_sym, P|].
+    apply ssorted_NoDup; auto.
+  - eapply perm_trans; [apply sort_mtime_perm | exact P].
+Qed.
+
+Definition notemp_idx (s : st) : Prop := forall k, In k (keys (index s)) -> is_temp k = false.
+
+Lemma map_pair_id {A B} (l : list (A * B)) : map (fun e => (fst e, snd e)) l = l.
+Proof. induction l as [|[a b] l IH]; simpl; f_equal; auto. Qed.
+
+Lemma recency_restart s c :
+  good s -> notemp_idx s -> measure s <= c -> index (reopen s c) = index s.
+Proof.
+  intros (Hi & Hks & (Hd & Hle & Hinj & Ho)) Hnt Hc.
+  pose proof Hi as [(Hm & _ & Hnd & _) _]. pose proof (ksorted_NoDup _ Hks) as NDf.
+  set (F := map (fun e : key * N => (fst e, (snd e, mtof (files s) (fst e)))) (index s)).
+  assert (EP : map proj F = index s).
+  { unfold F. rewrite map_map. unfold proj. simpl. apply map_pair_id. }
+  assert (EK : keys F = keys (index s)).
+  { unfold F, keys. rewrite map_map. reflexivity. }
+  assert (EM : map emt F = map (mtof (files s)) (keys (index s))).
+  { unfold F, keys. rewrite !map_map. reflexivity. }
+  assert (P : Permutation (files s) F).
+  { apply NoDup_Permutation.
+    - eapply NoDup_map_inv; exact NDf.
+    - apply (NoDup_map_inv fst). fold (keys F). rewrite EK. exact Hnd.
+    - intros [k [sz mt]]. unfold F. rewrite in_map_iff. split.
+      + intros H. apply In_alookup in H; auto. exists (k, sz). simpl. split.
+        * unfold mtof. rewrite H. reflexivity.
+        * apply alookup_Some_In. apply Hd. eauto.
+      + intros ([k' sz'] & E & Hin). simpl in E. injection E as -> -> <-.
+        apply In_alookup in Hin; auto. apply Hd in Hin as [mt Hin]. unfold mtof. rewrite Hin.
+        apply alookup_Some_In; auto. }
+  unfold reopen. rewrite (sort_mtime_of_perm (files s) F P) by (rewrite EM; exact Ho).
+  rewrite fold_init_noevict; simpl; auto.
+  - split; [unfold acct|unfold hwf]; simpl.
+    + repeat split; try constructor; lia.
+    + split; [constructor|tauto].
+  - rewrite EP. lia.
+  - intros e He. apply Hnt. rewrite <- EK. apply (in_map fst) in He. exact He.
+  - rewrite EK. exact Hnd.
+Qed.
+
+(* ---------- mtimes stay in the past under EVERY op (external deletes included) ---------- *)
+
+Lemma files_shrink_init_add s e k v :
+  alookup k (files (init_add s e)) = Some v -> alookup k (files s) = Some v.
+Proof.
+  destruct e as [k0 [sz mt]]. unfold init_add.
+  assert (Hrm : alookup k (aremove k0 (files s)) = Some v -> alookup k (files s) = Some v).
+  { destruct (key_eq_dec k k0) as [->|Hne]; [rewrite alookup_aremove_eq; discriminate|].
+    rewrite alookup_aremove_neq; auto. }
+  destruct (is_temp k0); auto. destruct (negb (sz <=? cap s)); auto.
+  destruct (make_space s sz) as [ok s1] eqn:MS. apply make_space_spec in MS as (pre & idx' & m' & -> & _).
+  assert (Hev : alookup k (rmkeys (keys pre) (files s)) = Some v -> alookup k (files s) = Some v).
+  { destruct (in_dec key_eq_dec k (keys pre)) as [Hin|Hin].
+    - rewrite alookup_rmkeys_in; auto; discriminate.
+    - rewrite alookup_rmkeys_notin; auto. }
+  destruct ok; [rewrite files_lru_insert|]; simpl; auto.
+Qed.
+
+Lemma files_shrink_reopen s c k v :
+  alookup k (files (reopen s c)) = Some v -> alookup k (files s) = Some v.
+Proof.
+  unfold reopen.
+  assert (G : forall l s0, alookup k (files (fold_left init_add l s0)) = Some v -> alookup k (files s0) = Some v).
+  { induction l; simpl; auto. intros s0 H. apply IHl in H. eapply files_shrink_init_add; eauto. }
+  intros H. apply G in H. exact H.
+Qed.
+
+Lemma step_mt_le s o : inv s -> mt_le s -> mt_le (fst (step s o)).
+Proof.
+  intros Hi Hle.
+  assert (Hp : plain_op o \/ (exists k, o = ExternalDelete k) \/ exists c, o = Reopen c).
+  { destruct o; simpl; eauto; tauto. }
+  destruct Hp as [Hp|[[k ->]|[c ->]]].
+  - destruct (step_shape s o Hi Hp) as [[pre [R Fo Ck]]|(k & pre & ni & nf & _ & [_ Fk Fo Ck Fn] & _)];
+      intros k0 sz0 mt0 H.
+    + destruct (in_dec key_eq_dec k0 (keys pre)) as [Hin|Hin].
+      * rewrite (proj1 (Fo k0) Hin) in H; discriminate.
+      * rewrite (proj2 (Fo k0) Hin) in H. apply Hle in H. lia.
+    + destruct (key_eq_dec k0 k) as [->|Hne].
+      * rewrite Fk in H. rewrite H in Fn. simpl in Fn. lia.
+      * destruct (in_dec key_eq_dec k0 (keys pre)) as [Hin|Hin].
+        -- rewrite (proj1 (Fo k0 Hne) Hin) in H; discriminate.
+        -- rewrite (proj2 (Fo k0 Hne) Hin) in H. apply Hle in H. lia.
+  - simpl. intros k0 sz0 mt0 H. simpl in H. destruct (key_eq_dec k0 k) as [->|Hne].
+    + rewrite alookup_aremove_eq in H; discriminate.
+    + rewrite alookup_aremove_neq in H by auto. eapply Hle; eauto.
+  - simpl. intros k0 sz0 mt0 H. apply files_shrink_reopen, Hle in H. rewrite clock_reopen. auto.
+Qed.
+
+Lemma run_inv_mt_le ops : forall s, inv s -> mt_le s -> inv (run s ops) /\ mt_le (run s ops).
+Proof.
+  unfold run. induction ops as [|o r IH]; simpl; auto. intros s Hi Hle.
+  apply IH; [apply step_inv | apply step_mt_le]; auto.
+Qed.
+
+(* ---------- no indexed key (or pending key) has a temp-file name ---------- *)
+
+Definition notemp (s : st) : Prop :=
+  notemp_idx s /\ (forall h hd, In (h, hd) (handles s) -> is_temp (h_key hd) = false).
+
+(* guard: no operation names a key that looks like one of the cache's own temp files *)
+Definition op_notemp (o : op) : Prop :=
+  match o with
+  | InsertBytes k _ | InsertWith k _ _ | InsertFile k _ | PrepareAdd k _ | Get k | Remove k => is_temp k = false
+  | _ => True
+  end.
+
+Lemma handles_lru_remove s k : handles (lru_remove s k) = handles s.
+Proof. unfold lru_remove. destruct (alookup k (index s)); auto. Qed.
+
+Lemma handles_lru_insert s k v : handles (lru_insert s k v) = handles s.
+Proof. unfold lru_insert. destruct (lru_trim _ _ _); auto. Qed.
+
+Lemma handles_make_space s n ok s' : make_space s n = (ok, s') -> handles s' = handles s /\ next_h s' = next_h s.
+Proof. intros MS. apply make_space_spec in MS as (pre & idx' & m' & -> & _). auto. Qed.
+
+Lemma handles_insert_by s k d w f s' r t : insert_by s k d w f = (s', r, t) -> handles s' = handles s.
+Proof.
+  unfold insert_by. destruct (match d with Some d0 => negb (d0 <=? cap s) | None => false end).
+  { intros H; inversion H; subst; auto. }
+  cbv zeta. destruct f.
+  { intros H; inversion H; subst. simpl. apply handles_lru_remove. }
+  destruct (make_space _ _) as [ok s3] eqn:MS. apply handles_make_space in MS as [MS _]. simpl in MS.
+  rewrite handles_lru_remove in MS.
+  destruct ok; intros H; inversion H; subst; simpl; rewrite ?handles_lru_insert; auto.
+Qed.
+
+Lemma hset_In_strong {V} h (v : V) l h' x :
+  In (h', x) (hset h v l) -> In (h', x) l \/ (x = v /\ h' = h /\ exists v0, hlookup h l = Some v0).
+Proof.
+  induction l as [|[h2 v2] r IH]; simpl; [tauto|].
+  destruct (h =? h2) eqn:E; simpl.
+  - apply N.eqb_eq in E; subst h2. intros [H|H]; auto. inversion H; subst. right. eauto.
+  - intros [H|H]; auto. apply IH in H. tauto.
+Qed.
+
+Lemma handles_reopen s c : handles (reopen s c) = [].
+Proof.
+  unfold reopen.
+  assert (G : forall l s0, handles (fold_left init_add l s0) = handles s0).
+  { induction l as [|[k [sz mt]] l IH]; simpl; auto. intros s0. rewrite IH.
+    unfold init_add. destruct (is_temp k); auto. destruct (negb (sz <=? cap s0)); auto.
+    destruct (make_space s0 sz) as [ok s1] eqn:MS. apply handles_make_space in MS as [MS _].
+    destruct ok; rewrite ?handles_lru_insert; auto. }
+  rewrite G. reflexivity.
+Qed.
+
+Lemma step_handles s o h hd :
+  In (h, hd) (handles (fst (step s o))) ->
+  (exists hd0, In (h, hd0) (handles s) /\ h_key hd0 = h_key hd) \/ (exists n, o = PrepareAdd (h_key hd) n).
+Proof.
+  assert (Same : forall s', handles s' = handles s -> In (h, hd) (handles s') ->
+            (exists hd0, In (h, hd0) (handles s) /\ h_key hd0 = h_key hd) \/ (exists n, o = PrepareAdd (h_key hd) n)).
+  { intros s' E H. rewrite E in H. eauto. }
+  destruct o; simpl.
+  - destruct (insert_by s k (Some n) n false) as [[s' r] t] eqn:E. apply handles_insert_by in E. simpl. apply Same; auto.
+  - destruct (insert_by s k None n fail) as [[s' r] t] eqn:E. apply handles_insert_by in E. simpl. apply Same; auto.
+  - destruct (insert_by s k (Some n) n false) as [[s' r] t] eqn:E. apply handles_insert_by in E. simpl. apply Same; auto.
+  - unfold prepare_add. destruct (make_space s n) as [ok s1] eqn:MS. apply handles_make_space in MS as [MS _].
+    destruct ok; simpl.
+    + rewrite MS, in_app_iff. simpl. intros [H|[H|[]]]; [eauto|]. inversion H; subst. simpl. eauto.
+    + apply Same; auto.
+  - unfold write_tmp. destruct (hlookup h0 (handles s)) as [hd0|] eqn:E; simpl; [|apply Same; auto].
+    intros H. apply hset_In_strong in H as [H|(-> & -> & _)]; eauto.
+    left. exists hd0. split; [apply hlookup_In; auto | reflexivity].
+  - unfold commit. destruct (hlookup h0 (handles s)) as [hd0|] eqn:E; simpl; [|apply Same; auto].
+    destruct (make_space _ _) as [ok s2] eqn:MS. apply handles_make_space in MS as [MS _]. simpl in MS.
+    destruct ok; simpl; rewrite ?handles_lru_insert; simpl; rewrite MS; intros H; apply hremove_In in H; eauto.
+  - unfold abandon. destruct (hlookup h0 (handles s)) as [hd0|] eqn:E; simpl; [|apply Same; auto].
+    intros H; apply hremove_In in H; eauto.
+  - unfold get, lru_get. destruct (alookup k (index s)); simpl; [|apply Same; auto].
+    destruct (alookup k (files s)) as [[fsz mt]|]; simpl; apply Same; auto.
+  - unfold remove. destruct (alookup k (index s)); simpl; [|apply Same; auto]. rewrite files_lru_remove.
+    destruct (alookup k (files s)); simpl; apply Same; simpl; apply handles_lru_remove.
+  - apply Same; auto.
+  - apply Same; auto.
+  - rewrite handles_reopen. simpl. tauto.
+Qed.
+
+Lemma reopen_notemp_idx s c : ksorted (files s) -> notemp_idx (reopen s c).
+Proof.
+  intros Hks. destruct (reopen_J s c Hks) as (_ & _ & _ & preF & F' & HF & HI & _).
+  intros k Hin. rewrite HI, keys_proj in Hin. apply In_keys_inv in Hin as [v Hin].
+  assert (Hin2 : In (k, v) (filter (keep c) (sort_mtime (files s)))) by (rewrite HF, in_app_iff; auto).
+  apply filter_In in Hin2 as [_ Hk]. unfold keep in Hk. simpl in Hk.
+  destruct (is_temp k); auto; discriminate.
+Qed.
+
+Lemma step_notemp s o : good s -> notemp s -> op_notemp o -> notemp (fst (step s o)).
+Proof.
+  intros Hg [Hn1 Hn2] Ho. pose proof Hg as (Hi & Hks & _). split.
+  - assert (Hp : plain_op o \/ (exists k, o = ExternalDelete k) \/ exists c, o = Reopen c).
+    { destruct o; simpl; eauto; tauto. }
+    destruct Hp as [Hp|[[k ->]|[c ->]]].
+    + destruct (step_shape s o Hi Hp) as [[pre [R _ _]]|(k & pre & ni & nf & Hk & [(rest & R1 & R2) _ _ _ _] & _)];
+        intros k0 Hin.
+      * apply Hn1. rewrite R, keys_app, in_app_iff. auto.
+      * rewrite R2, keys_app, in_app_iff in Hin. destruct Hin as [Hin|Hin].
+        -- apply Hn1. assert (Hin2 : In k0 (keys (aremove k (index s)))) by (rewrite R1, keys_app, in_app_iff; auto).
+           apply keys_aremove in Hin2. tauto.
+        -- destruct ni; simpl in Hin; [|tauto]. destruct Hin as [<-|[]].
+           destruct o; simpl in *; try discriminate; try (inversion Hk; subst; auto).
+           destruct (hlookup h (handles s)) as [hd|] eqn:E; [|discriminate]. inversion Hk; subst.
+           apply (Hn2 h). apply hlookup_In; auto.
+    + simpl. exact Hn1.
+    + simpl. apply reopen_notemp_idx; auto.
+  - intros h hd Hin. apply step_handles in Hin as [(hd0 & Hin & <-)|[n ->]].
+    + eapply Hn2; eauto.
+    + exact Ho.
+Qed.
+
+Lemma run_good_notemp ops : forall s,
+  good s -> notemp s -> Forall not_extdel ops -> Forall op_notemp ops ->
+  good (run s ops) /\ notemp (run s ops).
+Proof.
+  unfold run. induction ops as [|o r IH]; simpl; auto. intros s Hg Hn F1 F2. inversion F1; inversion F2; subst.
+  apply IH; auto; [apply step_good | apply step_notemp]; auto.
+Qed.
+
+Lemma reopen_notemp s c : ksorted (files s) -> notemp (reopen s c).
+Proof.
+  intros Hks. split; [apply reopen_notemp_idx; auto|]. rewrite handles_reopen. simpl. tauto.
+Qed.
+
+(* ====================================================================== *)
+(* H. single-step theorems                                                 *)
+(* ====================================================================== *)
+
+(* the key an op acts on, for the LRU-order statement *)
+Definition op_key_ok (s : st) (o : op) (k : key) : Prop :=
+  match o with
+  | Reopen _ => False
+  | _ => match op_key s o with Some k0 => k = k0 | None => True end
+  end.
+
+Lemma lru_order s o k : inv s -> op_key_ok s o k ->
+  exists pre, aremove k (index s) = pre ++ aremove k (index (fst (step s o))) /\
+    forall k', In k' (keys pre) -> alookup k' (files (fst (step s o))) = None.
+Proof.
+  intros Hi Hk. pose proof Hi as [(_ & _ & Hnd & _) _].
+  assert (Hp : plain_op o \/ (exists k0, o = ExternalDelete k0) \/ exists c, o = Reopen c).
+  { destruct o; simpl; eauto; tauto. }
+  destruct Hp as [Hp|[[k0 ->]|[c ->]]].
+  - destruct (step_shape s o Hi Hp) as [[pre [R Fo _]]|(k0 & pre & ni & nf & Hk0 & T & _)].
+    + exists (aremove k pre). split.
+      * rewrite R at 1. apply aremove_app.
+      * intros k' Hin. apply keys_aremove in Hin. apply Fo; tauto.
+    + assert (k = k0) as ->.
+      { unfold op_key_ok in Hk. rewrite Hk0 in Hk. destruct o; auto; contradiction. }
+      destruct T as [(rest & R1 & R2) _ Fo _ _]. exists pre.
+      assert (Hk1 : alookup k0 (pre ++ rest) = None) by (rewrite <- R1; apply alookup_aremove_eq).
+      apply alookup_app_None in Hk1 as [Hk1 Hk2]. split.
+      * rewrite R1, R2, aremove_app, (aremove_notin k0 rest) by auto.
+        destruct ni; simpl; rewrite ?bytes_eqb_refl, app_nil_r; auto.
+      * intros k' Hin. apply Fo; auto. intros ->. apply alookup_None in Hk1. tauto.
+  - exists []. simpl. split; auto. tauto.
+  - contradiction.
+Qed.
+
+Lemma get_is_use s k sz fsz mt :
+  alookup k (index s) = Some sz -> alookup k (files s) = Some (fsz, mt) ->
+  snd (step s (Get k)) = ORes ROk (Some k) /\
+  index (fst (step s (Get k))) = aremove k (index s) ++ [(k, sz)] /\
+  alookup k (files (fst (step s (Get k)))) = Some (fsz, clock s + 1) /\
+  (forall k', k' <> k -> alookup k' (files (fst (step s (Get k)))) = alookup k' (files s)) /\
+  (mt_le s -> forall k' sz' mt', k' <> k ->
+     alookup k' (files (fst (step s (Get k)))) = Some (sz', mt') -> mt' < clock s + 1).
+Proof.
+  intros E F. simpl. unfold get, lru_get. rewrite E. simpl. rewrite F. simpl.
+  split; auto. split; auto. split; [apply alookup_ains_eq|].
+  split; [intros k' Hne; apply alookup_ains_neq; auto|].
+  intros Hle k' sz' mt' Hne H. rewrite alookup_ains_neq in H by auto. apply Hle in H. lia.
+Qed.
+
+Lemma too_large_insert s k n : cap s < n -> insert_by s k (Some n) n false = (s, RTooLarge, None).
+Proof. intros H. unfold insert_by. destruct (n <=? cap s) eqn:E; [lia|]. reflexivity. Qed.
+
+Lemma too_large_prepare s k n : cap s < n -> prepare_add s k n = (s, RTooLarge).
+Proof.
+  intros H. unfold prepare_add, make_space. destruct (n <=? cap s) eqn:E; [lia|]. reflexivity.
+Qed.
+
+Lemma too_large_insert_with s k n : cap s < n ->
+  snd (step s (InsertWith k n false)) = ORes RTooLarge None /\
+  index (fst (step s (InsertWith k n false))) = aremove k (index s) /\
+  alookup k (files (fst (step s (InsertWith k n false)))) = None /\
+  (forall k', k' <> k ->
+     alookup k' (index (fst (step s (InsertWith k n false)))) = alookup k' (index s) /\
+     alookup k' (files (fst (step s (InsertWith k n false)))) = alookup k' (files s)).
+Proof.
+  intros H. simpl. unfold insert_by. cbv zeta. destruct (lru_remove_eq s k) as [m1 E1]. rewrite E1.
+  unfold make_space. simpl. destruct (n <=? cap s) eqn:E; [lia|]. simpl.
+  split; auto. split; auto. split; [apply alookup_aremove_eq|].
+  intros k' Hne. split; [apply alookup_aremove_neq; auto|].
+  rewrite alookup_aremove_neq by auto. apply alookup_ains_neq; auto.
+Qed.
+
+Lemma never_wedges_insert s k n : inv s -> pending_size s + n <= cap s ->
+  snd (step s (InsertBytes k n)) = ORes ROk (Some k) /\
+  alookup k (index (fst (step s (InsertBytes k n)))) = Some n.
+Proof.
+  intros Hi Hn. simpl. unfold insert_by. destruct (n <=? cap s) eqn:E; [|lia]. simpl.
+  pose proof (inv_lru_remove s k Hi) as Hi1.
+  destruct (lru_remove_eq s k) as [m1 E1]. rewrite E1 in *.
+  destruct (make_space _ n) as [ok s3] eqn:MS.
+  pose proof MS as MS2. apply inv_make_space in MS2 as [Hi3 Hb]; [|exact Hi1].
+  apply make_space_spec in MS as (pre & idx' & m' & -> & Hidx & _ & _ & Hok & _). simpl in *.
+  assert (ok = true) as ->. { apply Hok; auto. apply Hi1. }
+  rewrite lru_insert_inv_eq by (auto; apply Hb; auto). simpl. split; auto.
+  rewrite alookup_app, alookup_aremove_eq. simpl. rewrite bytes_eqb_refl. auto.
+Qed.
+
+Lemma never_wedges_prepare s k n : inv s -> pending_size s + n <= cap s ->
+  snd (step s (PrepareAdd k n)) = ORes ROk None.
+Proof.
+  intros Hi Hn. simpl. unfold prepare_add. destruct (make_space s n) as [ok s1] eqn:MS.
+  apply make_space_spec in MS as (pre & idx' & m' & -> & Hidx & _ & _ & Hok & _).
+  assert (ok = true) as ->. { apply Hok; auto. apply Hi. }
+  reflexivity.
+Qed.
+
+Lemma no_handles_no_pending s : inv s -> handles s = [] -> pending_size s = 0.
+Proof. intros [(_ & _ & _ & Hp) _] H. rewrite Hp, H. reflexivity. Qed.
+
+(* ====================================================================== *)
+(* I. run-level statements                                                 *)
+(* ====================================================================== *)
+
+Lemma acct_all s c ops : inv (run (reopen s c) ops).
+Proof. apply run_inv, inv_reopen. Qed.
+
+Lemma disk_agrees_run s ops : good s -> Forall not_extdel ops -> dagree (run s ops).
+Proof. intros Hg Hf. apply (run_good ops s Hg Hf). Qed.
+
+Lemma recency_run s0 ops c :
+  good s0 -> notemp s0 -> Forall not_extdel ops -> Forall op_notemp ops ->
+  measure (run s0 ops) <= c -> index (reopen (run s0 ops) c) = index (run s0 ops).
+Proof.
+  intros Hg Hn F1 F2 Hc. destruct (run_good_notemp ops s0 Hg Hn F1 F2) as [Hg' [Hn' _]].
+  apply recency_restart; auto.
+Qed.
+
+Lemma trace_inv ops : forall s, inv s -> Forall (fun x => inv (snd x)) (trace s ops).
+Proof.
+  induction ops as [|o r IH]; simpl; intros s Hi; [constructor|].
+  pose proof (step_inv s o Hi) as H. destruct (step s o) as [s' x]. simpl in H. constructor; auto.
+Qed.
+
+Lemma NoDup_map_inj {A B} (f : A -> B) l x y :
+  NoDup (map f l) -> In x l -> In y l -> f x = f y -> x = y.
+Proof.
+  induction l as [|a l IH]; simpl; [tauto|]. intros H; inversion H; subst.
+  intros [->|Hx] [->|Hy] E; auto.
+  - exfalso. apply H2. rewrite E. apply in_map; auto.
+  - exfalso. apply H2. rewrite <- E. apply in_map; auto.
+Qed.
+
+(* a checkable sufficient condition for [dir_ok] *)
+Lemma dir_ok_of_list s :
+  ksorted (files s) -> Forall (fun e => emt e <= clock s) (files s) -> NoDup (map emt (files s)) -> dir_ok s.
+Proof.
+  intros Hk Hf Hn. split; [auto|]. split.
+  - intros k sz mt H. apply alookup_Some_In in H. rewrite Forall_forall in Hf. apply (Hf _ H).
+  - intros k1 k2 sz1 sz2 mt H1 H2. apply alookup_Some_In in H1, H2.
+    pose proof (NoDup_map_inj emt _ _ _ Hn H1 H2 eq_refl) as E. inversion E; auto.
+Qed.
+
+Lemma dir_ok_empty c : dir_ok (empty c).
+Proof. apply dir_ok_of_list; simpl; auto; constructor. Qed.
+
+(* ---------- the statements pinned in Properties/C07.v ---------- *)
+
+Lemma C07_accounting_proof :
+  (forall s c ops, let s' := run (reopen s c) ops in
+     inv s' /\ measure s' = sumsz (index s') /\ measure s' + pending_size s' <= cap s' /\
+     NoDup (map fst (index s')) /\ pending_size s' = sumres (handles s')) /\
+  (forall s ops, inv s -> inv (run s ops)) /\
+  (forall s ops, inv s -> Forall (fun x => inv (snd x)) (trace s ops)).
+Proof.
+  split; [|split].
+  - intros s c ops s'. pose proof (acct_all s c ops) as H. fold s' in H.
+    split; auto. destruct H as [(H1 & H2 & H3 & H4) _]. auto.
+  - intros s ops. apply run_inv.
+  - intros s ops. apply trace_inv.
+Qed.
+
+Lemma C07_disk_agrees_proof :
+  (forall s c, dir_ok s -> good (reopen s c)) /\
+  (forall s ops, good s -> Forall not_extdel ops ->
+     good (run s ops) /\
+     forall k sz, alookup k (index (run s ops)) = Some sz <->
+                  exists mt, alookup k (files (run s ops)) = Some (sz, mt)).
+Proof.
+  split; [apply reopen_good|]. intros s ops Hg Hf. split; [apply run_good; auto|].
+  apply disk_agrees_run; auto.
+Qed.
+
+Lemma C07_lru_order_proof :
+  forall s o k, inv s -> op_key_ok s o k ->
+    exists pre, aremove k (index s) = pre ++ aremove k (index (fst (step s o))) /\
+      forall k', In k' (map fst pre) -> alookup k' (files (fst (step s o))) = None.
+Proof. exact lru_order. Qed.
+
+Lemma C07_get_is_use_proof :
+  (forall s k sz fsz mt,
+     alookup k (index s) = Some sz -> alookup k (files s) = Some (fsz, mt) ->
+     snd (step s (Get k)) = ORes ROk (Some k) /\
+     index (fst (step s (Get k))) = aremove k (index s) ++ [(k, sz)] /\
+     alookup k (files (fst (step s (Get k)))) = Some (fsz, clock s + 1) /\
+     (forall k', k' <> k -> alookup k' (files (fst (step s (Get k)))) = alookup k' (files s)) /\
+     (mt_le s -> forall k' sz' mt', k' <> k ->
+        alookup k' (files (fst (step s (Get k)))) = Some (sz', mt') -> mt' < clock s + 1)) /\
+  (forall s ops, inv s -> mt_le s -> mt_le (run s ops)) /\
+  (forall s k sz, good s -> alookup k (index s) = Some sz ->
+     mt_le s /\ exists mt, alookup k (files s) = Some (sz, mt)).
+Proof.
+  split; [exact get_is_use|]. split.
+  - intros s ops Hi Hle. apply run_inv_mt_le; auto.
+  - intros s k sz (_ & _ & (Hd & Hle & _)) H. split; auto. apply Hd; auto.
+Qed.
+
+Lemma C07_too_large_refused_proof :
+  forall s k n, cap s < n ->
+    step s (InsertBytes k n) = (s, ORes RTooLarge None) /\
+    step s (InsertFile k n) = (s, ORes RTooLarge None) /\
+    step s (PrepareAdd k n) = (s, ORes RTooLarge None) /\
+    snd (step s (InsertWith k n false)) = ORes RTooLarge None /\
+    index (fst (step s (InsertWith k n false))) = aremove k (index s) /\
+    alookup k (files (fst (step s (InsertWith k n false)))) = None /\
+    (forall k', k' <> k ->
+       alookup k' (index (fst (step s (InsertWith k n false)))) = alookup k' (index s) /\
+       alookup k' (files (fst (step s (InsertWith k n false)))) = alookup k' (files s)).
+Proof.
+  intros s k n H. split; [|split; [|split]].
+  - simpl. rewrite too_large_insert; auto.
+  - simpl. rewrite too_large_insert; auto.
+  - simpl. rewrite too_large_prepare; auto.
+  - apply too_large_insert_with; auto.
+Qed.
+
+Lemma C07_never_wedges_proof :
+  (forall s k n, inv s -> pending_size s + n <= cap s ->
+     snd (step s (InsertBytes k n)) = ORes ROk (Some k) /\
+     alookup k (index (fst (step s (InsertBytes k n)))) = Some n /\
+     snd (step s (PrepareAdd k n)) = ORes ROk None) /\
+  (forall s, inv s -> handles s = [] -> pending_size s = 0) /\
+  (forall s0 c ops k n, let s := run (reopen s0 c) ops in
+     handles s = [] -> n <= cap s ->
+     snd (step s (InsertBytes k n)) = ORes ROk (Some k) /\
+     alookup k (index (fst (step s (InsertBytes k n)))) = Some n).
+Proof.
+  split; [|split].
+  - intros s k n Hi Hn. destruct (never_wedges_insert s k n Hi Hn). repeat split; auto.
+    apply never_wedges_prepare; auto.
+  - exact no_handles_no_pending.
+  - intros s0 c ops k n s Hh Hn. pose proof (acct_all s0 c ops) as Hi. fold s in Hi.
+    apply never_wedges_insert; auto. rewrite (no_handles_no_pending s Hi Hh). lia.
+Qed.
+
+Lemma C07_recency_survives_restart_proof :
+  (forall s c, dir_ok s -> good (reopen s c) /\ notemp (reopen s c)) /\
+  (forall s0 ops, good s0 -> notemp s0 -> Forall not_extdel ops -> Forall op_notemp ops ->
+     good (run s0 ops) /\ notemp (run s0 ops) /\
+     forall c, measure (run s0 ops) <= c -> index (reopen (run s0 ops) c) = index (run s0 ops)).
+Proof.
+  split.
+  - intros s c H. split; [apply reopen_good; auto | apply reopen_notemp; apply H].
+  - intros s0 ops Hg Hn F1 F2. destruct (run_good_notemp ops s0 Hg Hn F1 F2) as [Hg' Hn'].
+    split; auto. split; auto. intros c Hc. apply recency_run; auto.
 Qed.
